@@ -637,7 +637,7 @@ class SigmaCorrelationRule(SigmaRuleBase, ProcessingItemTrackingMixin):
 
         # Condition - can be either a dict (basic condition) or a string (extended condition)
         condition_value = correlation_rule.get("condition")
-        condition: SigmaCorrelationCondition | SigmaExtendedCorrelationCondition
+        condition: SigmaCorrelationCondition | SigmaExtendedCorrelationCondition | None = None
 
         if condition_value is not None:
             if isinstance(condition_value, dict):
